@@ -5,14 +5,12 @@
     of the lexer model).  Implementation model: model/Lexer.v ([lex_text], one definition per function
     of crates/syntax/src/lexer.rs, tables regenerated from the sources).
 
-    Full statement (NOT provable for the unrepaired lexer, see C14_conforms_refuted):
-      forall ps, forallb valid_piece ps = true -> not_merged ps = true ->
-                 lex_text (render ps) = expected_tokens ps.
-    Proven: the same statement outside the known class D26 (identifiers beginning with 0x / 0b),
-    for ALL piece lists of any length: identifiers incl. digit-leading ones, decimal / hex / binary
-    integers that fit 64 bits, strings with escapes, code fragments, $names, all 25 keywords, all 52
-    bang operators incl. !cond, all punctuation incl. "..." and "#", white space, // comments and
-    NESTED /* */ comments; also with the five preprocessor directives as pieces. *)
+    Proven for ALL piece lists of any length and every class: identifiers incl. digit-leading ones
+    (4x, 0_foo, 0b, 0xg), decimal / hex / binary integers that fit 64 bits, strings with escapes, code
+    fragments, $names, all 25 keywords, all 52 bang operators incl. !cond, all punctuation incl. "..."
+    and "#", white space, // comments and NESTED /* */ comments; also with the five preprocessor
+    directives as pieces.  [expected_tokens ps] = the pieces with their kinds and lexemes
+    (= boundaries), no error message, then Eof. *)
 From Coq Require Import List NArith Bool String.
 From TG.Gen Require Import GenTokens.
 From TG.Model Require Import Chars Lexer LexSpec.
@@ -20,32 +18,47 @@ From TG.Proofs Require LexConform.
 Import ListNotations.
 Open Scope N_scope.
 
-Theorem C14_conforms_outside_known : forall ps : list piece,
-  forallb valid_piece ps = true -> outside_known ps = true -> not_merged ps = true ->
+Theorem C14_conforms : forall ps : list piece,
+  forallb valid_piece ps = true -> not_merged ps = true ->
   lex_text (render ps) = expected_tokens ps.
 Proof. exact LexConform.conforms_tokens. Qed.
-Check C14_conforms_outside_known : forall ps : list piece,
-  forallb valid_piece ps = true -> outside_known ps = true -> not_merged ps = true ->
+Check C14_conforms : forall ps : list piece,
+  forallb valid_piece ps = true -> not_merged ps = true ->
   lex_text (render ps) = expected_tokens ps.
-Print Assumptions C14_conforms_outside_known.
+Print Assumptions C14_conforms.
 
 (** the same with preprocessor directives among the pieces *)
-Theorem C14_conforms_directives_outside_known : forall ps : list piece,
-  forallb valid_piece_d ps = true -> outside_known ps = true -> not_merged ps = true ->
+Theorem C14_conforms_directives : forall ps : list piece,
+  forallb valid_piece_d ps = true -> not_merged ps = true ->
   lex_text (render ps) = expected_tokens ps.
 Proof. exact LexConform.conforms. Qed.
-Check C14_conforms_directives_outside_known : forall ps : list piece,
-  forallb valid_piece_d ps = true -> outside_known ps = true -> not_merged ps = true ->
+Check C14_conforms_directives : forall ps : list piece,
+  forallb valid_piece_d ps = true -> not_merged ps = true ->
   lex_text (render ps) = expected_tokens ps.
-Print Assumptions C14_conforms_directives_outside_known.
+Print Assumptions C14_conforms_directives.
 
-(** the full statement fails on the faithful model: the identifier 0b *)
-Theorem C14_conforms_refuted :
-  exists ps, forallb valid_piece ps = true /\ not_merged ps = true /\ lex_text (render ps) <> expected_tokens ps.
-Proof. exact LexConform.conforms_refuted. Qed.
-Check C14_conforms_refuted :
-  exists ps, forallb valid_piece ps = true /\ not_merged ps = true /\ lex_text (render ps) <> expected_tokens ps.
-Print Assumptions C14_conforms_refuted.
+(** the per-class munch lemma behind it: a lexeme of any class followed by any text that the side
+    condition allows is scanned as exactly that lexeme with that kind and no error *)
+Theorem C14_munch : forall (k : TokenKind) (w r : stext),
+  (spec_tok k w || spec_sep k w || spec_directive k w) = true -> follow_ok k r = true ->
+  lex_one (w ++ r) = (k, None, w, r).
+Proof. exact LexConform.munch. Qed.
+Check C14_munch : forall (k : TokenKind) (w r : stext),
+  (spec_tok k w || spec_sep k w || spec_directive k w) = true -> follow_ok k r = true ->
+  lex_one (w ++ r) = (k, None, w, r).
+Print Assumptions C14_munch.
+
+(** consequence: under the side condition a text has at most one decomposition into pieces *)
+Theorem C14_unambiguous : forall ps qs : list piece,
+  forallb valid_piece_d ps = true -> not_merged ps = true ->
+  forallb valid_piece_d qs = true -> not_merged qs = true ->
+  render ps = render qs -> ps = qs.
+Proof. exact LexConform.unambiguous. Qed.
+Check C14_unambiguous : forall ps qs : list piece,
+  forallb valid_piece_d ps = true -> not_merged ps = true ->
+  forallb valid_piece_d qs = true -> not_merged qs = true ->
+  render ps = render qs -> ps = qs.
+Print Assumptions C14_unambiguous.
 
 (** tokens separated by well-formed gaps (the form of the property statement): the side condition holds *)
 Theorem C14_separated : forall ps : list piece,
@@ -77,12 +90,13 @@ Definition ex_pieces : list piece :=
     P T_VarName "$v"; P T_LineComment "// c /*"; mkpiece T_Whitespace [10; 32]; P T_Class "class";
     P T_Whitespace " "; P T_Id "classy"; P T_Dot "."; P T_XCond "!cond"; P T_Less "<"; P T_IntVal "18446744073709551615";
     P T_Greater ">"; P T_Question "?"; P T_Colon ":"; P T_Equal "="; P T_LBrace "{"; P T_RBrace "}";
-    P T_IntVal "-9223372036854775808"; P T_Whitespace " "; P T_Id "0_foo"; P T_Minus "-" ]%string.
+    P T_IntVal "-9223372036854775808"; P T_Whitespace " "; P T_Id "0_foo"; P T_Minus "-"; P T_LParen "("; P T_Id "0b"; P T_Comma ","; P T_Id "0xg"; P T_Whitespace " ";
+    P T_Id "0b2"; P T_Comma ","; P T_Id "0x" ]%string.
 
 Example C14_nonvacuous :
-  forallb valid_piece ex_pieces = true /\ outside_known ex_pieces = true /\ not_merged ex_pieces = true
+  forallb valid_piece ex_pieces = true /\ not_merged ex_pieces = true
   /\ separated ex_pieces = false
-  /\ List.length (lex_text (render ex_pieces)) = 49%nat.
+  /\ List.length (lex_text (render ex_pieces)) = 57%nat.
 Proof. vm_compute. repeat split. Qed.
 
 Example C14_separated_nonvacuous :
